@@ -37,6 +37,8 @@ def main():
         return common.finish(rep)
     scns = scenrun.enumerate_scenarios(rep, "MC_XUnseen", unseen.cfg(rep.tier, "RelAll"), f"c05_{rep.tier}")
     findings = scenrun.evaluate(rep, scns, unseen.evaluate, procs=a.procs, chunksize=8)
+    from .. import prepstages
+    findings += prepstages.run(rep, rep.tier, rep.seed)
     scenrun.report(rep, findings, TAGS)
     lifecycle_part(rep, a, TAGS, QUICK, THOROUGH, DEVS, quick_paths=16)
     rep.exhaustive = True
